@@ -6,4 +6,8 @@ MUTANTS = [
  (F, '            self.values_orders.update({feature: order})', '            pass', None),
  (F, '            if not order.contains(kept_value):\n                order.append(kept_value)', '            pass', None),
  (F, '        if order.get_group(discarded_value) == kept_value:', '        if order.get_group(kept_value) == discarded_value:', None),
+ (F, '                order.group(kept_value, discarded_value)', '                order.group(discarded_value, kept_value)', None),
+ (F, '                # replacing group leader\n                order.replace_group_leader(discarded_value, kept_value)', '                pass', None),
+ (F, '                order.replace_group_leader(discarded_value, kept_value)', '                order.replace_group_leader(kept_value, discarded_value)', None),
+ (F, '            elif mode == "replace":', '            elif mode == "group":', None),
 ]
